@@ -352,7 +352,12 @@ pub fn read_conference_create_response(cc_response: &mut dyn Read) -> RdpResult<
             break;
         }
 
-        let mut buffer = vec![0 as u8; (cast!(DataType::U16, header["length"])? - header.length() as u16) as usize];
+        // The length of a block include the header
+        let body_length = match cast!(DataType::U16, header["length"])?.checked_sub(header.length() as u16) {
+            Some(length) => length,
+            None => return Err(Error::RdpError(RdpError::new(RdpErrorKind::InvalidSize, "GCC: server block shorter than its header")))
+        };
+        let mut buffer = vec![0 as u8; body_length as usize];
         sub.read_exact(&mut buffer)?;
 
         match MessageType::from(cast!(DataType::U16, header["type"])?) {
@@ -376,8 +381,10 @@ pub fn read_conference_create_response(cc_response: &mut dyn Read) -> RdpResult<
     }
 
     // All section are important
+    let server_net = try_option!(result.get(&MessageType::ScNet), "GCC: missing server network data")?;
+    let server_core = try_option!(result.get(&MessageType::ScCore), "GCC: missing server core data")?;
     Ok(ServerData{
-        channel_ids: cast!(DataType::Trame, result[&MessageType::ScNet]["channelIdArray"])?.into_iter().map(|x| cast!(DataType::U16, x).unwrap()).collect(),
-        rdp_version: Version::from(cast!(DataType::U32, result[&MessageType::ScCore]["rdpVersion"])?)
+        channel_ids: cast!(DataType::Trame, server_net["channelIdArray"])?.into_iter().map(|x| cast!(DataType::U16, x).unwrap()).collect(),
+        rdp_version: Version::from(cast!(DataType::U32, server_core["rdpVersion"])?)
     })
 }
